@@ -198,6 +198,6 @@ def run(rep, tier):
     cfgs = ["x86"] if tier == "quick" else ["x86", "x86-rayon", "arm", "wasm"]
     for cfg, prog in programs(cfgs):
         rep.set_cfg(cfg)
-        pipeline(rep, prog, "C07.pipeline")
-        nearest_no_alpha(rep, prog, "C07.nearest-no-alpha")
-        alpha_rules.alpha_set(rep, prog, "C07.alpha-set")
+        rep.call(pipeline, rep, prog, "C07.pipeline")
+        rep.call(nearest_no_alpha, rep, prog, "C07.nearest-no-alpha")
+        rep.call(alpha_rules.alpha_set, rep, prog, "C07.alpha-set")
